@@ -20,7 +20,11 @@ NNPS = ['ll', 'box', 'sh', 'esh', 'ci', 'sfc', 'tree', 'comp_tree',
         'strat_hash', 'strat_sfc']
 THREADS = [1, 2, 3, 4, 8, 16]
 REORDER = [0, 1, 3]
-PROBLEMS = ['drop', 'tank', 'periodic', 'collide']
+PROBLEMS = ['drop', 'tank', 'periodic', 'collide', 'gtvf']
+# problems run on a sub-set of the option vectors only
+REDUCED = {'gtvf': lambda c: not c['openmp'] and (
+    c['nnps'] in ('ll', 'box', 'sfc', 'tree') and
+    (c['reorder'] or c['cache'] or c == DEFAULT or c['sort']))}
 DEFAULT = dict(nnps='ll', cache=False, openmp=False, threads=1, reorder=0,
                sort=False)
 
@@ -207,13 +211,23 @@ def run(ctx):
         # group by (openmp) so that each worker compiles at most two modules;
         # every configuration is also repeated once (bit reproducibility)
         for omp in (False, True):
-            sub = [c for c in cfgs if c['openmp'] == omp]
+            sub = [c for c in cfgs if c['openmp'] == omp and
+                   REDUCED.get(prob, lambda c: True)(c)]
+            if prob in REDUCED:
+                for n in ('ll', 'box'):
+                    for r in (1, 3):
+                        for cache in (False, True):
+                            c = dict(DEFAULT, nnps=n, reorder=r, cache=cache)
+                            if not omp and c not in sub:
+                                sub.append(c)
+            if not sub:
+                continue
             k = max(1, len(sub) // 6)
             for i in range(0, len(sub), k):
                 chunk = sub[i:i + k]
                 jobs.append((prob, chunk + chunk[:2]))
     hcfg = dict(DEFAULT, sort=True)
-    hjobs = [(prob, hcfg, hs) for prob in PROBLEMS
+    hjobs = [(prob, hcfg, hs) for prob in PROBLEMS if prob not in REDUCED
              for hs in (1 + ctx.seed, 2 + ctx.seed)]
     both = map_jobs(lambda j: _job(j[1]) if j[0] == 'cfg' else
                     _hashseed_job(j[1]),
